@@ -804,4 +804,14 @@ def _stack_finalize_glue(funcs, text):
     return smt_stack.stack_finalize_glue(funcs, text)
 
 
-UNITS = {"stack_gou_glue": _stack_gou_glue, "stack_finalize_glue": _stack_finalize_glue, "c08_planner": c08_planner, "c07_apply_glue": c07_apply_glue, "c12_mapping": c12_mapping, "c10_trigger": c10_trigger, "c07_prune_glue": c07_prune_glue}
+def _stack_ops_glue(funcs, text):
+    from . import smt_stack
+    return smt_stack.stack_ops_glue(funcs, text)
+
+
+def _proto_glue(funcs, text):
+    from . import smt_proto
+    return smt_proto.proto_glue(funcs, text)
+
+
+UNITS = {"proto_glue": _proto_glue, "stack_ops_glue": _stack_ops_glue, "stack_gou_glue": _stack_gou_glue, "stack_finalize_glue": _stack_finalize_glue, "c08_planner": c08_planner, "c07_apply_glue": c07_apply_glue, "c12_mapping": c12_mapping, "c10_trigger": c10_trigger, "c07_prune_glue": c07_prune_glue}
